@@ -281,3 +281,25 @@ pub fn multibyte_alignment() -> Vec<Content> {
     }
     v
 }
+
+/// Half-width katakana: single-byte Shift-JIS characters 0xA1..0xDF. Pairs such as "ﾂｱ"
+/// (C2 B1) are also valid UTF-8, a trailing one sits directly before the NUL, and a lead-byte
+/// scanner could mistake them for the first half of a two-byte character.
+pub fn kana_family() -> Vec<Content> {
+    let strings = ["ﾂｱ", "ｿ", "AID_ﾏﾙｽ", "ﾃｽﾄ", "ﾎｼ_ﾊｺ.bin", "ﾄｱ.bin"];
+    let mut v = Vec::new();
+    for e in [End::Little, End::Big] {
+        for (i, s) in strings.iter().enumerate() {
+            let other = strings[(i + 1) % strings.len()];
+            let mut c = Content::new(e);
+            c.data = vec![0; 12];
+            c.strings.insert(0, s.to_string());
+            c.strings.insert(4, other.to_string());
+            c.cstrings.insert(8, s.to_string());
+            c.labels.insert(0, vec![s.to_string(), other.to_string()]);
+            c.labels.insert(12, vec![format!("{}x", s)]);
+            v.push(c);
+        }
+    }
+    v
+}
